@@ -279,28 +279,32 @@ theorem ack_parse_short (p : Profile) (bs : Bytes) (h : bs.length < 12) :
 
 /-! ### `WriteMem` / `Pending` views -/
 
-theorem parseReservedU16_eq (buf : Bytes) :
-    parseReservedU16 buf =
-      if buf.length < 2 then .err .bufferIo
+theorem parseReservedU16_eq (buf : Bytes) (ccd : AckCcd) :
+    parseReservedU16 buf ccd =
+      if ccd.scdLen < 4 then .err .invalidPacket
+      else if buf.length < 2 then .err .bufferIo
       else if uintAt buf 0 2 ≠ 0 then .err .invalidPacket
       else if buf.length < 4 then .err .bufferIo
       else .ok (uintAt buf 2 2) := by
+  by_cases hl : ccd.scdLen < 4
+  · simp only [parseReservedU16, hl, if_true]
   by_cases h2 : 2 ≤ buf.length <;> by_cases h4 : 4 ≤ buf.length <;>
   by_cases hr : uintAt buf 0 2 = 0 <;>
   first
   | (exfalso; omega)
   | (have a2 : ¬ buf.length < 2 := by omega
      have a4 : ¬ buf.length < 4 := by omega
-     simp (disch := omega) only [parseReservedU16, readLE_ok, Res.bind_ok, Res.pure_eq,
+     simp (disch := omega) only [parseReservedU16, hl, readLE_ok, Res.bind_ok, Res.pure_eq,
        Nat.zero_add, hr, a2, a4, ne_eq, not_true_eq_false, not_false_eq_true,
        if_true, if_false])
   | (have a2 : ¬ buf.length < 2 := by omega
      have a4 : buf.length < 4 := by omega
-     simp (disch := omega) only [parseReservedU16, readLE_ok, readLE_err, Res.bind_ok,
+     simp (disch := omega) only [parseReservedU16, hl, readLE_ok, readLE_err, Res.bind_ok,
        Res.bind_err, Res.pure_eq, Nat.zero_add, Nat.reduceAdd, hr, a2, a4, ne_eq,
        not_true_eq_false, not_false_eq_true, if_true, if_false])
   | (have a2 : buf.length < 2 := by omega
-     simp (disch := omega) only [parseReservedU16, readLE_err, Res.bind_err, a2, if_true])
+     simp (disch := omega) only [parseReservedU16, hl, readLE_err, Res.bind_err, a2, if_true,
+       if_false])
 
 /-! ### the `WriteMemStacked` walk -/
 
@@ -632,9 +636,9 @@ theorem encodeAck_fields (code cmd req : Nat) (scd : Bytes) (hcode : code < 2 ^ 
     rw [this]
     exact List.drop_left' (by simp)
 
-theorem encodeValueScd_parse (v : Nat) (hv : v < 2 ^ 16) :
-    parseReservedU16 (encodeValueScd v) = .ok v := by
-  rw [parseReservedU16_eq]
+theorem encodeValueScd_parse (v : Nat) (ccd : AckCcd) (hv : v < 2 ^ 16) (hc : 4 ≤ ccd.scdLen) :
+    parseReservedU16 (encodeValueScd v) ccd = .ok v := by
+  rw [parseReservedU16_eq, if_neg (by omega)]
   have e : v % 65536 = v := Nat.mod_eq_of_lt hv
   have hl : (encodeValueScd v).length = 4 := by simp [encodeValueScd]
   have h0 : uintAt (encodeValueScd v) 0 2 = 0 := by simp [encodeValueScd, uintAt_here]
